@@ -623,7 +623,7 @@ def cases(tier):
 
 SUBS = [
     Sub("enumerate", execute, strategy=cases, budget={"quick": 3008, "thorough": 12000}, shards=16, shrink=True),
-    Sub("jobshop", execute_jobshop, strategy=jobshop_cases, budget={"quick": 480, "thorough": 2500}, shards=16, shrink=True),
-    Sub("ffsp", execute_ffsp, strategy=ffsp_cases, budget={"quick": 480, "thorough": 4000}, shards=16, shrink=True),
+    Sub("jobshop", execute_jobshop, strategy=jobshop_cases, budget={"quick": 1440, "thorough": 2500}, shards=16, shrink=True),
+    Sub("ffsp", execute_ffsp, strategy=ffsp_cases, budget={"quick": 1440, "thorough": 4000}, shards=16, shrink=True),
 ]
 TIME_CAP = {"quick": 500, "thorough": 3400}
